@@ -2121,13 +2121,24 @@ pub fn replay(case: &Value, ctx: &mut Ctx) -> bool {
             None,
             ctx,
         ),
-        "c14" => o::c14(
-            &input,
-            &o::C14Opts {
-                well_formed: case["well_formed"].as_bool().unwrap_or(false),
-            },
-            ctx,
-        ),
+        "c14" => {
+            // (state that outlives one parse - tables kept per thread - only shows after other texts were
+            // parsed in the same process: parse texts with a consumed compiler directive at every index first)
+            {
+                use pasfmt_core::prelude::{DelphiLexer, DelphiLogicalLineParser, Lexer, LogicalLineParser};
+                for k in 0..96 {
+                    let t = format!("{}{{$R+}} x; {{$ifdef A}} y; {{$endif}}", "a ".repeat(k));
+                    let _ = DelphiLogicalLineParser {}.parse(DelphiLexer {}.lex(&t));
+                }
+            }
+            o::c14(
+                &input,
+                &o::C14Opts {
+                    well_formed: case["well_formed"].as_bool().unwrap_or(false),
+                },
+                ctx,
+            )
+        }
         _ => return false,
     }
     true
